@@ -304,14 +304,17 @@ Relation(c) == RelationOf(c, Allowed(c))
                             max() over no applicable mode raises                                                  *)
 SqSum(D) == GSum([k \in 1..Len(D) |-> GMul(D[k], D[k])])
 ImplSpanAccept(v, vs) == Rank(vs) < Len(vs) \/ Len(v) <= Len(vs) \/ InSpan(v, vs)
-ImplOffsetZero(X, dx, Y, dy) == LET D == DiffSeq(Y, dy, X, dx)   n == Len(D)   tot == GSum(D)
-                                IN SqSum([k \in 1..n |-> GSub(tot, GScale(n, D[k]))]) = GZ
+\* a vanishing sum of squares of a non-zero sequence is an exact cancellation: the tolerance/1000 shift of the first
+\* term (jit # 0) destroys it unless that term is itself zero
+ImplSqZero(T, jit) == SqSum(T) = GZ /\ (jit = 0 \/ SeqIsZero(T) \/ T[1] = GZ)
+ImplOffsetZero(X, dx, Y, dy, jit) == LET D == DiffSeq(Y, dy, X, dx)   n == Len(D)   tot == GSum(D)
+                                     IN ImplSqZero(TLCEval([k \in 1..n |-> GSub(tot, GScale(n, D[k]))]), jit)
 \* error_calculators[m](student S, expected E) vanishes
-ImplFitZero(m, E, dE, S, dS) ==
-  CASE m = "equals" -> SqSum(DiffSeq(S, dS, E, dE)) = GZ
+ImplFitZero(m, E, dE, S, dS, jit) ==
+  CASE m = "equals" -> ImplSqZero(DiffSeq(S, dS, E, dE), jit)
     [] m = "proportional" -> RelProp(E, S)
-    [] m = "offset" -> ImplOffsetZero(S, dS, E, dE)
-    [] m = "linear" -> IF SeqIsConst(S) THEN ImplOffsetZero(S, dS, E, dE) ELSE RelLin(E, S)
+    [] m = "offset" -> ImplOffsetZero(S, dS, E, dE, jit)
+    [] m = "linear" -> IF SeqIsConst(S) THEN ImplOffsetZero(S, dS, E, dE, jit) ELSE RelLin(E, S)
 SignOf(q) == IF q[1] > 0 THEN 1 ELSE IF q[1] < 0 THEN -1 ELSE 0
 JitterWraps(c) == c.jit # 0 /\ Div(VRe(c.P[1][1]), VRe(c.P[1][2]))[2] = 1 /\ c.jit * SignOf(VRe(c.P[1][2])) < 0
 \* eigenvalue 0, percentage tolerance, and the tolerance/1000 shift of the first coordinate makes M v non-zero
@@ -329,7 +332,7 @@ ImplOutcome(c) ==
               IF \A s \in 1..NSamples(c) : ~VIsZero(c.S[s]) /\ ImplSpanAccept(c.S[s].ent, Ents(c.P[s])) THEN Grade(One) ELSE Grade(Zero)
          [] c.kind = "linear" ->
               LET E == LinE(c)  dE == c.P[1][1].den  S == LinS(c)  dS == c.S[1].den   v == ValidModes(c.cfg, E, S) IN
-              IF v = {} THEN SFError ELSE Grade(MaxCredit(c.cfg, {m \in v : ImplFitZero(m, E, dE, S, dS)}))
+              IF v = {} THEN SFError ELSE Grade(MaxCredit(c.cfg, {m \in v : ImplFitZero(m, E, dE, S, dS, c.jit)}))
          [] OTHER -> CHOOSE a \in Allowed(c) : TRUE
 ImplRefines(c) == ImplOutcome(c) \in Allowed(c)
 \* the circumscribed situations in which the implementation-shaped model leaves the documented class
